@@ -30,6 +30,7 @@ Dissimilarity
 """
 import abc
 import random
+from copy import copy
 from abc import ABCMeta
 from typing import Iterable
 from typing import TYPE_CHECKING, Tuple, Callable, Optional
@@ -503,12 +504,17 @@ class CombinedCategoricalDissimilarity(AbstractDissimilarity):
         if cat_dissim is None:
             cat_dissim = AbsoluteCategoricalDissimilarity()
 
+        components = []
         for component in (pos_dissim, cat_dissim):
             if component.delta_empty != np.float32(delta_empty):
                 # The component's kernel was compiled with its own delta_empty : it is compiled again
                 # so that both forms (d and d_mat) use the delta_empty of the combined dissimilarity.
+                # This is done on a copy : the given object may be a component of another combined dissimilarity.
+                component = copy(component)
                 component.delta_empty = np.float32(delta_empty)
                 component.d_mat = component.compile_d_mat()
+            components.append(component)
+        pos_dissim, cat_dissim = components
         self.positional_dissim: AbstractDissimilarity = pos_dissim
         self.categorical_dissim: CategoricalDissimilarity = cat_dissim
         self.alpha = alpha
